@@ -984,6 +984,19 @@ class Frame:
             return Cont(True, Tup([IMM, elem(args[0])]), kind="list")
         if last == "next" and args:
             return elem(args[0])
+        if last == "getattr" and len(e.args) >= 2:
+            # getattr(x, "slot"[, default]) reads the attribute
+            if isinstance(e.args[1], ast.Constant) and isinstance(
+                    e.args[1].value, str):
+                node = ast.copy_location(ast.Attribute(
+                    value=e.args[0], attr=e.args[1].value, ctx=ast.Load()), e)
+                v = self.ev_Attribute(node)
+                if isinstance(v, Unknown) and len(args) >= 3:
+                    return args[2]          # attribute may be absent
+                return join(v, args[2]) if len(args) >= 3 else v
+            if isinstance(args[0], (In, Obj)):
+                return Unknown("getattr with a computed attribute name")
+            return IMM
         if last in ("isinstance", "len", "hasattr", "int", "str", "float",
                     "bool", "abs", "min", "max", "sum", "any", "all", "hash",
                     "id", "repr", "print", "range", "type", "Bond", "getattr",
